@@ -38,6 +38,8 @@ func run(prop string) {
 		runC14()
 	case "C06":
 		runC06()
+	case "C02":
+		runDuplicateAck()
 	case "C03", "C04", "C07", "C16", "C17":
 		if prop == "C16" && simrt.Chance(1, 8, "udp-association-churn") {
 			runUDPAssociationChurn()
